@@ -26,6 +26,16 @@ def run(ck: Check):
         if len(tc[1]) >= 2:
             for cfg in ({}, {"repeat": "always"}):
                 ex.dfs("minimize-balanced", cfg, tc, stream="balanced", max_runs=60 if quick else 400)
+    # atoms that close one kind of bracket and open another (per-kind balances cancel numerically)
+    MIX = [b"x\n", b")[\n", b"](\n", b"){\n", b"}(\n", b"(\n", b"]\n"]
+    for tc in small_layouts(3 if quick else 4, alphabet=MIX[: (5 if quick else 7)], with_nonred=False):
+        if len(tc[1]) >= 2 and any(len(p) > 2 for p in tc[1]):
+            ex.dfs("minimize-balanced", {}, tc, stream="balanced-mixed", max_runs=40 if quick else 300)
+    for parts in ([b"keep\n", b"2), [\n", b"3], (\n"], [b"(\n", b") {\n", b"} [\n", b"]\n", b"o\n"],
+                  [b"f(\n", b"), [\n", b"], {\n", b"}\n"]):
+        tc = (b"", parts, [True] * len(parts), b"")
+        for cfg in ({}, {"repeat": "always"}):
+            ex.dfs("minimize-balanced", cfg, tc, stream="balanced-mixed", max_runs=200 if quick else 2000)
     ex.diff()
     r = rng("c13")
 
